@@ -37,6 +37,19 @@ def _node_job(node, script, job, flags=()):
     return json.loads(p.stdout)
 
 
+def _throws_later(diff):
+    """both runs end in the same kind of exception and one effect log is a proper prefix of the other"""
+    try:
+        a, b = diff['input'], diff['output']
+        if not (str(a['outcome']).startswith('throw:') and a['outcome'] == b['outcome']):
+            return False
+        x, y = a['at'], b['at']
+        n = min(len(x), len(y))
+        return x[:n] == y[:n] and len(x) != len(y)
+    except Exception:
+        return False
+
+
 def _lost_this(diff):
     """the first differing event is the same call with the same arguments, `this` undefined in the output only"""
     try:
@@ -84,6 +97,10 @@ def node_diffexec(node, prop, seed, tier, known, ev, scale=1):
                     cls = 'spread-of-a-non-iterable-literal-throws-after-later-arguments-were-evaluated'
                 elif not plus_on and ' + ' in q['src']:
                     cls = 'sum-left-in-place-is-evaluated-after-hoisted-operands-when-plus-is-disabled'
+                elif _throws_later(r['diff']) and _re.search(r"(\b(true|false|null|\d+(\.\d+)?|'[^']*'|\"[^\"]*\") \+ \d+n\b)|(\b\d+n \+ (true|false|null|'|\"|\d+(\.\d+)?(?![\dn.])))", q['src']):
+                    # `true + 10n`: a sum of literals is left where it is (it is taken to be a constant), but mixing a BigInt
+                    # with another kind throws when it is evaluated - after later arguments that were hoisted in front of it
+                    cls = 'literal-sum-mixing-bigint-throws-after-later-arguments-were-evaluated'
                 elif _lost_this(r['diff']) and _re.search(r'\?\.(\w+|\[[^\]]*\])(\.\w+)*\)*\?\.\(', q['src']):
                     # `a?.b?.(x)` / `a?.b.c?.(x)` inside a lowered chain: the callee is a link of the chain, it is
                     # hoisted whole into a temporary and called without its receiver
